@@ -119,4 +119,15 @@ PROPS = {
         "assumes": ["NoCollision", "an application reads under SQLite's read locks"],
         "trusted_base": ["Model/PageDB.v op_receive/op_open re-executed on replica timelines (cases_c01_*.v)"],
     },
+    "C15": {
+        "gen": ["ConstsGen.v"], "props_file": "Props/C15.v", "coq_targets": ["Props/C15.v"],
+        "level_text": "Proof: on the model a drop advances the position by exactly one with the empty checksum, leaves a tombstone file chained to the previous position and no database/WAL content; a replica applying the tombstone, and any node restarting on it, reaches the same position with no files; a database recreated afterwards continues the TXID sequence with the empty pre-checksum; the chain is kept (Props/C15.v). "
+                      "Tie: create/write/drop/recreate cycles (1-3 lives, same and different page sizes, both journal modes) on a loopback cluster with a connected replica, a replica stopped during the drop, a replica restarted after it and a late joiner; file presence, positions, images and the primary's multi-life history (re-executed by the PageDB model) are compared. Crash points inside the drop are covered by C05.",
+        "level_note": "Trusted: Coq kernel, cluster harness. Modelled not verified: db.go/store.go text; the directory listing of the mount (ReadDirAll) is observed through its page-count criterion, not through FUSE.",
+        "technique": "Coq proof (drop/tombstone/restart lemmas) + vm_compute correspondence + cluster oracle",
+        "rule": "6 scenarios quick (36 thorough): lives x page sizes (512/1024/4096, changing across lives) x journal mode x replica lagging during the drop x late joiner; distinct = (life index, page size, mode); non-trivial = a life or a drop whose effect was observed on every node",
+        "explanation": "Model-level theorems for all states; scenarios tie them to the code on all cluster nodes.",
+        "assumes": ["a database that never learnt a page size cannot be dropped (Header.Validate rejects page size 0): documented precondition"],
+        "trusted_base": ["Model/PageDB.v op_drop/op_apply/op_open; tie = cases_c15_*.v"],
+    },
 }
